@@ -107,6 +107,19 @@ def _declare(comp, spec, style):
             d = P.get((o, v), {})
             comp.declare_partials(o, v, rows=[r for r, c in nz], cols=[c for r, c in nz], val=[float(d.get(rc, 0)) for rc in nz])
             continue
+        if style in ('sp_coo', 'sp_csr', 'sp_csc') and nz:
+            # partial declared with a scipy.sparse value of that format; compute_partials later supplies the data array in the
+            # order of that matrix's own storage
+            import scipy.sparse as sp
+            rows = [r for r, c in nz]
+            cols = [c for r, c in nz]
+            M = sp.coo_matrix((np.arange(1, len(nz) + 1, dtype=float), (rows, cols)), shape=(spec.size(o), spec.size(v)))
+            M = {'sp_coo': M, 'sp_csr': M.tocsr(), 'sp_csc': M.tocsc()}[style]
+            C = M.tocoo()
+            comp.__dict__.setdefault('_sp_order', {})[(o, v)] = list(zip(C.row.tolist(), C.col.tolist())) if style == 'sp_coo' else \
+                _storage_order(M)
+            comp.declare_partials(o, v, val=M)
+            continue
         if style in ('sparse', 'sparse_dup'):
             rows = [r for r, c in nz]
             cols = [c for r, c in nz]
@@ -122,10 +135,32 @@ def _declare(comp, spec, style):
     comp._pat = pat
 
 
+def _storage_order(M):
+    """(row, col) of every stored entry of a scipy CSR/CSC matrix in the order of its .data array"""
+    out = []
+    for j in range(len(M.indptr) - 1):
+        for p in range(M.indptr[j], M.indptr[j + 1]):
+            out.append((j, int(M.indices[p])) if M.format == 'csr' else (int(M.indices[p]), j))
+    return out
+
+
 def _fill(comp, spec, style, vals, J, xp):
     if style == 'const':
         return
     P = spec.partials(vals)
+    if style in ('sp_coo', 'sp_csr', 'sp_csc'):
+        # a partial declared with a scipy.sparse value is set with a sparse matrix of the same format
+        if xp is np:
+            import scipy.sparse as SPM
+        else:
+            from symx import sparse as SPM
+        cls = {'sp_coo': SPM.coo_matrix, 'sp_csr': SPM.csr_matrix, 'sp_csc': SPM.csc_matrix}[style]
+        for (o, v), nz in comp._pat.items():
+            d = P.get((o, v), {})
+            if nz:
+                data = xp.array([d.get(rc, 0) for rc in nz], dtype=float)
+                J[o, v] = cls((data, ([r for r, c in nz], [c for r, c in nz])), shape=(spec.size(o), spec.size(v)))
+        return
     for (o, v), nz in comp._pat.items():
         d = P.get((o, v), {})
         if style in ('sparse', 'sparse_dup'):
